@@ -2858,7 +2858,11 @@ class Env(cabc.MutableMapping):
             # restore the values
             for k, v in old.items():
                 if v is NotImplemented:
-                    self._del_item(k, thread_local=True)
+                    try:
+                        self._del_item(k, thread_local=True)
+                    except KeyError:
+                        # the body of the block already deleted the variable
+                        pass
                 else:
                     self._set_item(k, v, thread_local=True)
             if exception is not None:
